@@ -13,6 +13,12 @@ From Sdfx Require Import Sdf.ThreadDB.
 From Sdfx Require Import Sdf.ScrewR.
 From Sdfx Require Import Sdf.IsoProfile.
 From Sdfx Require Import Sdf.IsoClosed.
+From Sdfx Require Import Geo.Box.
+From Sdfx Require Import Generated.ThreadExpr.
+From Sdfx Require Import Sdf.ScrewEq.
+From Sdfx Require Import Sdf.ObjSkel.
+From Sdfx Require Import Generated.ObjThread.
+From Sdfx Require Import Sdf.ObjMate.
 Import ListNotations.
 
 (* ------------------------------------------------------------------ the database (rows regenerated
@@ -196,12 +202,100 @@ Theorem C18_iso_mating : forall (ext int : V2 ROps -> R) (body : V3 ROps -> R) r
 Proof. exact iso_mating. Qed.
 Print Assumptions C18_iso_mating.
 
+(* ------------------------------------------------------------------ a generated nut fits the generated bolt
+   gen_Nut / gen_Bolt (Generated/ObjThread.v) are the constructions of obj.Nut and obj.Bolt as read from the
+   CURRENT obj/nut.go and obj/bolt.go: parameter checks, thread profile (radius +- tolerance, pitch, external /
+   internal), Screw3D (length, taper, pitch, starts), the bodies they are cut from / joined with.  `inside` is
+   the interior of such a construction (Sdf/ObjMate.v).  For every designation record t, all tolerances (the
+   generators reject negative ones), every head style and all lengths: the threaded part of the bolt and the
+   material of the nut have no common interior point when the nut is centred on the bolt's thread (any taper),
+   and for untapered threads also when it is moved by whole pitches along the axis.  Hypotheses: the two
+   profile functions are negative only under / non-positive under their outlines (C04's subject), and the nut's
+   body (hex or knurled head, height = its second argument) lies between its end planes. *)
+Theorem C18_obj_nut_bolt_mate :
+  forall (prof : R -> R -> bool -> V2 ROps -> R)
+         (call_in : string -> list R -> list string -> V3 ROps -> Prop)
+         (chamfer_in : list R -> V3 ROps -> Prop)
+         (t : ThreadParameters ROps) name_n style_n tol_n name_b style_b tol_b total shank N B,
+  gen_Nut t name_n style_n tol_n = Some N ->
+  gen_Bolt t name_b style_b tol_b total shank = Some B ->
+  0 < Pitch t ->
+  (forall q, - Pitch t / 2 <= vx q <= Pitch t / 2 -> prof (Radius t - tol_b) (Pitch t) true q < 0 ->
+             0 <= vy q /\ under (@iso_ext_outline ROps (Radius t - tol_b) (Pitch t)) (vx q) (vy q)) ->
+  (forall q, - Pitch t / 2 <= vx q <= Pitch t / 2 -> 0 <= vy q ->
+             under (@iso_int_outline ROps (Radius t + tol_n) (Pitch t)) (vx q) (vy q) ->
+             prof (Radius t + tol_n) (Pitch t) false q <= 0) ->
+  (forall name nums strs q, name = "HexHead3D"%string \/ name = "KnurledHead3D"%string ->
+             call_in name nums strs q -> Rabs (wz q) <= nth 1 nums 0 / 2) ->
+  0 <= tol_n /\ 0 <= tol_b /\
+  exists (l : list (Sk3 ROps)) (off : R), B = SkUnion3D l /\
+    forall a, In a l -> has_screw a ->
+    forall (k : Z), (k = 0%Z \/ Taper t = 0) ->
+    forall q, ~ (inside prof call_in chamfer_in a q /\
+                 inside prof call_in chamfer_in N (v3sub q (mkV3 0 0 (off + IZR k * Pitch t)))).
+Proof. exact obj_nut_bolt_mate. Qed.
+Print Assumptions C18_obj_nut_bolt_mate.
+
+(* ------------------------------------------------------------------ the model is the source text
+   Generated/ThreadExpr.v is translated from the Go AST of the CURRENT sdf/screw.go and sdf/utils.go on every
+   run; the definitions the theorems above speak about (Sdf/Screw.v) are equal to it, for all arguments, in
+   any number system (reals for the theorems, binary64 for the differential execution) *)
+
+Theorem C18_transl_SawTooth : forall (O : Ops) (x period : T O), gen_SawTooth x period = sawtooth x period.
+Proof. exact @transl_SawTooth. Qed.
+Print Assumptions C18_transl_SawTooth.
+
+Theorem C18_transl_DtoR : forall (O : Ops) (degrees : T O), gen_DtoR degrees = dtor degrees.
+Proof. exact @transl_DtoR. Qed.
+Print Assumptions C18_transl_DtoR.
+
+(* Screw3D on a non-nil profile: the guards, and pitch / lead = -pitch*starts / half length / taper as stored *)
+Theorem C18_transl_Screw3D : forall (O : Ops) (bb : Box2 O) (length taper pitch : T O) (starts : Z),
+  option_map (fun g => mkScrew (ScrewSDF3_pitch g) (ScrewSDF3_lead g) (ScrewSDF3_length g) (ScrewSDF3_taper g))
+             (gen_Screw3D false bb length taper pitch starts)
+  = screw3d length taper pitch starts.
+Proof. exact @transl_Screw3D. Qed.
+Print Assumptions C18_transl_Screw3D.
+
+Theorem C18_transl_Screw3D_bb : forall (O : Ops) (bb : Box2 O) (length taper pitch : T O) (starts : Z),
+  option_map ScrewSDF3_bb (gen_Screw3D false bb length taper pitch starts)
+  = option_map (screw_bb (vy (b2max bb))) (screw3d length taper pitch starts).
+Proof. exact @transl_Screw3D_bb. Qed.
+Print Assumptions C18_transl_Screw3D_bb.
+
+Theorem C18_transl_Screw3D_nil : forall (O : Ops) (bb : Box2 O) (length taper pitch : T O) (starts : Z),
+  gen_Screw3D true bb length taper pitch starts = None.
+Proof. exact @transl_Screw3D_nil. Qed.
+Print Assumptions C18_transl_Screw3D_nil.
+
+(* ScrewSDF3.Evaluate: the helical mapping, the taper, the length clamp *)
+Theorem C18_transl_ScrewSDF3_Evaluate : forall (O : Ops) (thread : V2 O -> T O) (s : ScrewSDF3 O) (p : V3 O),
+  gen_ScrewSDF3_Evaluate thread (s_pitch s) (s_lead s) (s_length s) (s_taper s) p = screw_eval thread s p.
+Proof. exact @transl_ScrewSDF3_Evaluate. Qed.
+Print Assumptions C18_transl_ScrewSDF3_Evaluate.
+
+(* ISOThread: the vertex list (with the corners marked for smoothing) handed to Polygon2D *)
+Theorem C18_transl_ISOThread : forall (O : Ops) (radius pitch : T O) (external : bool),
+  gen_ISOThread radius pitch external = iso_thread_pv radius pitch external.
+Proof. exact @transl_ISOThread. Qed.
+Print Assumptions C18_transl_ISOThread.
+
 (* ------------------------------------------------------------------ non-vacuity *)
 
 (* the hypotheses of the nesting theorem are satisfiable: the point just under the crest flat of M6x1 *)
 Example C18_nest_hyp_satisfiable :
   0 < 1 /\ 0 <= 0 /\ - 1 / 2 <= 0 <= 1 / 2 /\ under (@iso_ext_outline ROps 3 1) 0 (3 - 1 / 100).
 Proof. exact nest_example. Qed.
+
+(* the generators accept an M6x1 nut and bolt (both head styles), the bolt has a threaded part, and `inside`
+   is inhabited *)
+Example C18_obj_generated : forall prof,
+  (exists N, gen_Nut m6 "M6x1" "hex" 0 = Some N) /\
+  (exists l a, gen_Bolt m6 "M6x1" "hex" 0 10 2 = Some (SkUnion3D l) /\ In a l /\ has_screw a) /\
+  (exists l a, gen_Bolt m6 "M6x1" "knurl" 0 10 2 = Some (SkUnion3D l) /\ In a l /\ has_screw a) /\
+  (exists q, inside prof (fun _ _ _ _ => True) (fun _ _ => True)
+               (SkCall3 "HexHead3D" [1; 2] ["tb"%string] []) q).
+Proof. exact m6_generated. Qed.
 
 (* the database has ISO, unified and pipe rows *)
 Example C18_rows_nonempty :
